@@ -187,3 +187,22 @@ Theorem c05_noreply_defaults :
   = repeat (Some "None"%string) 9.
 Proof. split; reflexivity. Qed.
 Print Assumptions c05_noreply_defaults.
+
+(* the documented aliases: get_multi / set_multi / delete_multi (and HashClient's gets_multi) are bound to their *_many method, and
+   disconnect_all to close, on every client class, so what is shown for the *_many methods is what the aliases do.  The table is
+   the class bodies of this run (Gen/Aliases.v: the binding in force at the end of the class body). *)
+From PM Require Import Gen.Aliases Spec.AliasRule.
+Theorem c05_aliases :
+  (forall cls a t, In (cls, a, t) method_aliases -> alias_ok a t = true) /\
+  (forall cls a, In cls alias_classes -> In a documented_aliases -> has_alias method_aliases cls a = true) /\
+  multi_not_alias = [].
+Proof.
+  assert (H : aliases_ok method_aliases = true) by (vm_compute; reflexivity).
+  unfold aliases_ok in H. apply andb_true_iff in H. destruct H as [H1 H2].
+  rewrite forallb_forall in H1, H2.
+  split; [|split].
+  - intros cls a t Hin. exact (H1 _ Hin).
+  - intros cls a Hc Ha. specialize (H2 _ Hc). rewrite forallb_forall in H2. exact (H2 _ Ha).
+  - reflexivity.
+Qed.
+Print Assumptions c05_aliases.
